@@ -244,6 +244,10 @@ package httpgen
 //@ func (g *Generator) generateOneofDiscriminatorFile(file *protogen.File) (err error)
 //@   modifies *
 //@   ensures err == nil ==> spec.AllOK_oneof(file.Messages)
+// the oneof file imports fmt (writeOneofDiscriminatorImports) only together with a line that uses it (C13)
+//@   at-call writeOneofDiscriminatorImports requires once: count("writeOneofDiscriminatorImports") == old(count("writeOneofDiscriminatorImports"))
+//@   ensures fmt_import_used: count("writeOneofDiscriminatorImports") > old(count("writeOneofDiscriminatorImports")) ==> count("P:fmt.") > old(count("P:fmt."))
+//@   loop 2 invariant count("P:fmt.") >= old(count("P:fmt.")) && (_i2 > 0 ==> count("P:fmt.") > old(count("P:fmt.")))
 
 //@ func collectFileUnwrapFields(messages []*protogen.Message, global *GlobalUnwrapInfo) (err error)
 //@   decreases spec.depth(messages)
@@ -431,6 +435,30 @@ package httpgen
 //@   modifies *
 //@   modifies contexts
 //@   decreases spec.depth(messages)
+// every collected context has a discriminated oneof (C13: the file's fmt import is used)
+//@   ensures contexts_nonempty: (forall k int :: 0 <= k && k < len(old(*contexts)) ==> old(*contexts)[k] != nil && len(old(*contexts)[k].Oneofs) > 0) ==> (forall k int :: 0 <= k && k < len((*contexts)) ==> (*contexts)[k] != nil && len((*contexts)[k].Oneofs) > 0)
+//@   loop 1 invariant (forall k int :: 0 <= k && k < len(old(*contexts)) ==> old(*contexts)[k] != nil && len(old(*contexts)[k].Oneofs) > 0) ==> (forall k int :: 0 <= k && k < len((*contexts)) ==> (*contexts)[k] != nil && len((*contexts)[k].Oneofs) > 0)
+//@   loop 2 invariant (forall k int :: 0 <= k && k < len(old(*contexts)) ==> old(*contexts)[k] != nil && len(old(*contexts)[k].Oneofs) > 0) ==> (forall k int :: 0 <= k && k < len((*contexts)) ==> (*contexts)[k] != nil && len((*contexts)[k].Oneofs) > 0)
+
+//@ func collectOneofDiscriminatorContext(file *protogen.File) (r []*OneofDiscriminatorContext)
+//@   modifies *
+//@   ensures contexts_nonempty: (forall k int :: 0 <= k && k < len(r) ==> r[k] != nil && len(r[k].Oneofs) > 0)
+
+//@ func (g *Generator) generateOneofUnmarshalVariants(gf *protogen.GeneratedFile, info *annotations.OneofDiscriminatorInfo)
+//@   modifies *
+//@   ensures uses_fmt: count("P:fmt.") > old(count("P:fmt."))
+
+//@ func (g *Generator) generateOneofUnmarshalJSON(gf *protogen.GeneratedFile, ctx *OneofDiscriminatorContext)
+//@   requires ctx != nil
+//@   modifies *
+//@   ensures uses_fmt: len(old(ctx.Oneofs)) > 0 ==> count("P:fmt.") > old(count("P:fmt."))
+//@   ensures monotone: count("P:fmt.") >= old(count("P:fmt."))
+//@   loop 2 invariant count("P:fmt.") >= old(count("P:fmt.")) && (_i2 > 0 ==> count("P:fmt.") > old(count("P:fmt.")))
+
+//@ func (g *Generator) generateOneofMarshalJSON(gf *protogen.GeneratedFile, ctx *OneofDiscriminatorContext)
+//@   requires ctx != nil
+//@   modifies *
+//@   ensures monotone: count("P:fmt.") >= old(count("P:fmt."))
 
 //@ func collectTimestampFormatMessages(messages []*protogen.Message, contexts *[]*TimestampFormatContext)
 //@   modifies contexts
